@@ -122,7 +122,7 @@ Definition kc_p521 : keyconf :=
 Definition keys_p521 : list pubkey := [ {| pk_id := 1; pk_type := KEd25519 |}; {| pk_id := 2; pk_type := KP521 |} ].
 Definition idp_p521 : idp :=
   {| srv := server_of (b "https://keymaster.example") (b "https://keymaster.example/idp/oauth2/userinfo") keys_p521 (kc_signer kc_p521);
-     clients := [ {| cl_id := b "clientA"; cl_secret := b "secretA"; cl_allow_aud := false |}; {| cl_id := b "clientB"; cl_secret := []; cl_allow_aud := false |} ] |}.
+     clients := [ {| cl_id := b "clientA"; cl_secret := b "secretA"; cl_allow_aud := false; cl_other := [] |}; {| cl_id := b "clientB"; cl_secret := []; cl_allow_aud := false; cl_other := [] |} ] |}.
 
 Definition areq_w (client chal meth : bs) : areq :=
   {| ar_method_ok := true; ar_response_type := rt_code; ar_client := client; ar_scope := b "openid";
@@ -131,7 +131,7 @@ Definition areq_w (client chal meth : bs) : areq :=
      ar_nonce := b "nonce123"; ar_jti := b "jti" |}.
 
 Definition treq_w (code : token) (redirect : bs) (basic : option (bs * bs)) (fc verifier vhash : bs) : treq :=
-  {| tr_post := true; tr_grant := gt_authcode; tr_redirect := redirect; tr_code := code;
+  {| tr_conn := conn_none; tr_post := true; tr_grant := gt_authcode; tr_redirect := redirect; tr_code := code;
      tr_verifier := verifier; tr_vhash := vhash; tr_basic := basic; tr_form_client := fc; tr_form_secret := [] |}.
 
 (* with a P-521 signer the daemon starts, the secret flow releases an ID token signed ES512 ... *)
